@@ -134,6 +134,11 @@ class Explorer:
     def step_block(self, bb, env):
         """apply the statements of bb to env (a dict, copied by caller)"""
         for st in self.body.stmts(bb):
+            if st[0] == "sd":
+                # StorageDead: the value is gone; forgetting it keeps the state space small
+                if st[1] not in self.fixed_locals:
+                    env.pop(st[1], None)
+                continue
             if st[0] != "=":
                 continue
             pl = st[1]
